@@ -76,9 +76,20 @@ FOOT_HEADS = [["Notes:", "  "], ["Example:"], [">>> f(1)"], [], ["Usage::"], ["R
 
 
 @st.composite
-def docstr(draw, styles=("rest", "google", "numpydoc"), allow_star=False, multiline=False, footer=True, indents=(0, 4, 8)):
+def docstr(draw, styles=("rest", "google", "numpydoc"), allow_star=False, multiline=False, footer=True, indents=(0, 4, 8), mentions=False):
     style = draw(st.sampled_from(styles))
     paras = draw(st.lists(st.lists(hw, min_size=1, max_size=3), min_size=0, max_size=3))
+    mention = None
+    if mentions and paras and draw(st.integers(0, 3)) == 0:
+        # header prose that MENTIONS a section keyword in the middle of a line ("... listed under Parameters below",
+        # "Empty input is fine. Returns hw3 then"): only a line that STARTS with a token opens a section.  Keywords of
+        # The colon-carrying tokens (`:param`, `Args:` ...) are left out: the style detector and the ReST scanner look
+        # for them anywhere in the text (a false positive the source documents); the two plain English words are not
+        mention = draw(st.sampled_from(["Returns", "Parameters"]))
+        i = draw(st.integers(0, len(paras) - 1))
+        j = draw(st.integers(0, len(paras[i]) - 1))
+        paras = [list(p) for p in paras]
+        paras[i][j] = paras[i][j] + " " + mention + draw(st.sampled_from(["", " hw29", " hw28 hw27."]))
     L = []
     for k, p in enumerate(paras):
         last = k == len(paras) - 1
@@ -110,4 +121,5 @@ def docstr(draw, styles=("rest", "google", "numpydoc"), allow_star=False, multil
         "footer_lines": foot_lines,
         "section": "\n".join(sec),
         "lead_nl": lead_nl,
+        "mention": mention,
     }
